@@ -10,6 +10,7 @@ package atree
 // first-level collision group of gsize keys (distinct, ascending second-level
 // digests) at position gpos; the group is inline or an external group slab.
 func vhBuildGroupMap(storage SlabStorage, addr Address, b *vDigesterBuilder, nsingle, gsize, gpos int, external bool) (*OrderedMap, []vhKV, []int) {
+	listMode := b.levels == 1 // keys colliding on every level sit in an insertion-ordered list
 	rootID, _ := storage.GenerateSlabID(addr)
 	var kvs []vhKV
 	var groupIdx []int
@@ -43,20 +44,34 @@ func vhBuildGroupMap(storage SlabStorage, addr Address, b *vDigesterBuilder, nsi
 			}
 			first = false
 			prev = d0
-			ges := newHkeyElements(1)
+			var ges elements
 			var prevD1 uint64
-			for j := 0; j < gsize; j++ {
-				el, k := newSingle(true, d0, &prevD1, j == 0)
-				groupIdx = append(groupIdx, len(kvs)-1)
-				ges.hkeys = append(ges.hkeys, Digest(k.d[1]))
-				ges.elems = append(ges.elems, el)
-				ges.size += digestSize + el.size
+			if listMode {
+				les := &singleElements{level: 1, size: singleElementsPrefixSize}
+				for j := 0; j < gsize; j++ {
+					var dummy uint64
+					el, _ := newSingle(true, d0, &dummy, true)
+					groupIdx = append(groupIdx, len(kvs)-1)
+					les.elems = append(les.elems, el)
+					les.size += el.size
+				}
+				ges = les
+			} else {
+				hes := newHkeyElements(1)
+				for j := 0; j < gsize; j++ {
+					el, k := newSingle(true, d0, &prevD1, j == 0)
+					groupIdx = append(groupIdx, len(kvs)-1)
+					hes.hkeys = append(hes.hkeys, Digest(k.d[1]))
+					hes.elems = append(hes.elems, el)
+					hes.size += digestSize + el.size
+				}
+				ges = hes
 			}
 			var ge element
 			if external {
 				gid, _ := storage.GenerateSlabID(addr)
 				gslab := &MapDataSlab{
-					header:         MapSlabHeader{slabID: gid, size: mapDataSlabPrefixSize + ges.size, firstKey: ges.firstKey()},
+					header:         MapSlabHeader{slabID: gid, size: mapDataSlabPrefixSize + ges.Size(), firstKey: ges.firstKey()},
 					elements:       ges,
 					anySize:        true,
 					collisionGroup: true,
@@ -95,14 +110,17 @@ func vhBuildGroupMap(storage SlabStorage, addr Address, b *vDigesterBuilder, nsi
 	return &OrderedMap{Storage: storage, root: root, digesterBuilder: b}, kvs, groupIdx
 }
 
-//vh:prop C12 C05 C09 C02
-//vh:param singles 3 4
-//vh:param gsize 2 3
+//vh:prop C12 C05 C09 C02 C06 C13
+//vh:param singles 2 4
+//vh:param gsize 3 3
 func VH_C12_GroupStep() {
 	vhSetThreshold(256)
 	storage := vhNewBasicStorage()
 	addr := vhAddr(1)
 	b := &vDigesterBuilder{levels: 4}
+	if vhChoose("listmode", 2) == 1 {
+		b.levels = 1
+	}
 	nsingle := vhChoose("nsingle", vhParam("singles", 3)+1)
 	gsize := 2 + vhChoose("gsize", vhParam("gsize", 2)-1)
 	gpos := vhChoose("gpos", nsingle+1)
@@ -197,5 +215,25 @@ func VH_C12_GroupStep() {
 	vhAssert(m.SlabID() == rootID, "root id stable")
 	vhCheckMap(m, addr, model, "post")
 	vhAssert(vhStorageSlabCount(storage) == vhMapSlabCount(storage, rootID), "no leaked or dangling slabs")
+	// fully colliding keys enumerate in insertion order (C13): in list mode the
+	// group members must appear in model order
+	if b.levels == 1 {
+		keys, _ := vhCollectMap("iterate", m.IterateReadOnly)
+		var wantGroup []uint64
+		for _, kv := range model {
+			if kv.key.d[0] == gd0 {
+				wantGroup = append(wantGroup, kv.key.id)
+			}
+		}
+		var gotGroup []uint64
+		for _, id := range keys {
+			for _, w := range wantGroup {
+				if w == id {
+					gotGroup = append(gotGroup, id)
+				}
+			}
+		}
+		vhSameSeq(gotGroup, wantGroup, "fully colliding keys enumerate in insertion order")
+	}
 	vhReach("group-step-done")
 }
